@@ -54,6 +54,8 @@ def _setup(vm, P, n):
         for j in range(i + 1, n):
             inter[(i, j)] = grid_f32(vm, 'inter_%d_%d' % (i, j), INTER)
     area = [grid_f32(vm, 'area%d' % i, AREAS) for i in range(n)]
+    for (i, j), x in inter.items():
+        vm.assume(z3.And(f_le(x, area[i]), f_le(x, area[j])))     # an intersection is not larger than either box
     vm.notes['inter'] = inter
     vm.notes['area'] = area
     return dets, scores, heights, inter, area
@@ -222,6 +224,19 @@ fn replay() {
         let d: Vec<Det> = p.iter().map(|i| dets[*i].clone()).collect();
         check(&d, thr, sthr);
     }
+    // a catalogue of axis-aligned scenes around it: every triple of boxes (large / small, nested, chained, duplicated),
+    // every assignment of three distinct scores or no scores, thresholds on both sides of typical coverages
+    let cat: Vec<Universal2DBox> = vec![(0.0, 0.0, 4.0, 4.0), (1.0, 1.0, 2.0, 2.0), (3.0, 0.0, 4.0, 4.0), (0.0, 0.0, 16.0, 8.0), (2.0, 2.0, 1.0, 1.0),
+                                        (0.0, 0.0, 4.0, 4.0), (6.0, 0.0, 2.0, 8.0), (0.0, 3.0, 12.0, 2.0), (40.0, 40.0, 3.0, 3.0)]
+        .into_iter().map(|(l, t, w, h): (f32, f32, f32, f32)| Universal2DBox::ltwh(l, t, w, h)).collect();
+    let score_sets: [[Option<f32>; 3]; 5] = [[Some(0.9), Some(0.6), Some(0.3)], [Some(0.3), Some(0.9), Some(0.6)], [Some(0.6), Some(0.3), Some(0.9)], [None, None, None], [Some(0.5), None, Some(0.5)]];
+    for i in 0..cat.len() { for j in 0..cat.len() { for k in 0..cat.len() {
+        if i == j || j == k || i == k { continue; }
+        for sc in &score_sets { for t in [thr, 0.1, 0.3, 0.6] {
+            let d: Vec<Det> = vec![(cat[i].clone(), sc[0]), (cat[j].clone(), sc[1]), (cat[k].clone(), sc[2])];
+            check(&d, t, None);
+        } }
+    } } }
 }
 '''
 
